@@ -3,6 +3,7 @@ mod c23;
 mod c24;
 mod c26;
 mod lsp;
+mod sched;
 
 use vcommon::*;
 
